@@ -33,7 +33,9 @@ func init() {
 func semTyped(err error) bool {
 	var ps *sem.ParseError[string]
 	var pb *sem.ParseError[[]byte]
-	return errors.As(err, &ps) || errors.As(err, &pb)
+	var ns *sem.ParseError[semNamedS]
+	var nb *sem.ParseError[semNamedB]
+	return errors.As(err, &ps) || errors.As(err, &pb) || errors.As(err, &ns) || errors.As(err, &nb)
 }
 
 type semEntry struct {
@@ -55,12 +57,20 @@ var semEntries = []semEntry{
 	{"DefaultParser[[]byte](0)", true, true, func(s string) (sem.Ver, error) { return sem.DefaultParser([]byte(s), 0) }, false},
 	{"DefaultParser[string](RuleDisableTag)", true, false, func(s string) (sem.Ver, error) { return sem.DefaultParser(s, sem.RuleDisableTag) }, false},
 	{"DefaultParser[[]byte](RuleDisableTag)", true, false, func(s string) (sem.Ver, error) { return sem.DefaultParser([]byte(s), sem.RuleDisableTag) }, true},
+	{"Parse[named string]", true, true, func(s string) (sem.Ver, error) { return sem.Parse(semNamedS(s)) }, false},
+	{"ParseTag[named []byte]", false, true, func(s string) (sem.Ver, error) { return sem.ParseTag(semNamedB(s)) }, false},
+	{"DefaultParser[named string](RuleDisableTag)", true, false, func(s string) (sem.Ver, error) { return sem.DefaultParser(semNamedS(s), sem.RuleDisableTag) }, false},
 	{"Ver.UnmarshalText", true, true, func(s string) (sem.Ver, error) {
 		var v sem.Ver
 		err := v.UnmarshalText([]byte(s))
 		return v, err
 	}, true},
 }
+
+type (
+	semNamedS string
+	semNamedB []byte
+)
 
 var maxU64Big = new(big.Int).SetUint64(^uint64(0))
 
@@ -430,8 +440,15 @@ func runC03(c *rt.Ctx) {
 					w.ClassN("single-byte-substitution", 256)
 					c03Case(w, base[:p]+base[p+1:], true)
 				}
-				for _, ins := range []string{"0", ".", "-", "+", "v", "\n", " ", "\x00", "é", "_"} {
+				for _, ins := range []string{"0", ".", "-", "+", "v", "\n", " ", "\x00", "é", "_", "ſ", "K", "İ", "ı", "１", "٣", "\u0301", "\ufeff"} {
 					c03Case(w, base[:p]+ins+base[p:], true)
+					if p < len(base) {
+						c03Case(w, base[:p]+ins+base[p+1:], true)
+					}
+				}
+				for _, nuls := range []string{"\x00", "\x00\x00", " ", "\n"} { // the same text with a trailing invisible tail, right after the valid one was parsed
+					c03Case(w, base, false)
+					c03Case(w, base+nuls, true)
 				}
 				w.ClassN("insertion-deletion", 11)
 			}
